@@ -14,12 +14,16 @@ Definition wf0 (E : env) (w : world) : Prop := tpl_orig (w_tpl w) /\ cache_sound
 (* a cached value list of an external-source transformation object is what its source yields *)
 Definition vcs (E : env) (w : world) : Prop :=
   forall i it d v, w_vc w i = Some v -> valid_pair E i it -> i_tr it = TFile d -> e_src E d = Ok v.
-Definition wf (E : env) (w : world) : Prop := wf0 E w /\ vcs E w.
+(* the vars dict of a backend's pipeline object is what init wrote into it; pipeline objects are numbered below w_next *)
+Definition lasts (E : env) (w : world) : Prop :=
+  forall b bk L f, nth_error (w_bks w) b = Some bk -> b_last bk = Some (L, f) ->
+    (L < w_next w)%nat /\ w_pvars w L = init_vars E (b_cls bk) (b_user bk) (b_opts bk) f.
+Definition wf (E : env) (w : world) : Prop := wf0 E w /\ vcs E w /\ lasts E w.
 
 (* everything but the per-rule fields, the counters and the type-hint cache is untouched *)
 Definition same_frame (w w' : world) : Prop :=
   w_tpl w' = w_tpl w /\ w_cache w' = w_cache w /\ w_owner w' = w_owner w /\ w_bks w' = w_bks w
-  /\ w_next w' = w_next w.
+  /\ w_next w' = w_next w /\ w_pvars w' = w_pvars w.
 Lemma same_frame_refl w : same_frame w w.
 Proof. repeat split. Qed.
 Lemma same_frame_trans a b c : same_frame a b -> same_frame b c -> same_frame a c.
@@ -105,7 +109,7 @@ Lemma cache_parse_ideal E w k : cache_sound E (w_cache w) ->
   snd (cache_parse E w k) = (if mem c_pipe k then SigmaErr E_Condition else
                              match e_parse E k with Some t => Ok t | None => SigmaErr E_Condition end)
   /\ cache_sound E (w_cache w') /\ w_tpl w' = w_tpl w /\ w_owner w' = w_owner w /\ w_ps w' = w_ps w
-  /\ w_bks w' = w_bks w /\ w_next w' = w_next w /\ w_vc w' = w_vc w.
+  /\ w_bks w' = w_bks w /\ w_next w' = w_next w /\ w_vc w' = w_vc w /\ w_pvars w' = w_pvars w.
 Proof.
   intros Hc. unfold cache_parse. destruct (mem c_pipe k); [simpl; repeat split; try reflexivity; exact Hc|].
   destruct (lookup k (w_cache w)) as [t|] eqn:El.
@@ -119,7 +123,8 @@ Qed.
 (* ---------- conditions ---------- *)
 (* what the rest of a world looks like after converting conditions *)
 Definition same_conv (w w' : world) : Prop :=
-  w_owner w' = w_owner w /\ w_ps w' = w_ps w /\ w_bks w' = w_bks w /\ w_next w' = w_next w /\ w_vc w' = w_vc w.
+  w_owner w' = w_owner w /\ w_ps w' = w_ps w /\ w_bks w' = w_bks w /\ w_next w' = w_next w /\ w_vc w' = w_vc w
+  /\ w_pvars w' = w_pvars w.
 
 Lemma conv_conds_ideal E cls dets : forall ks w, wf0 E w ->
   let w' := fst (conv_conds E cls dets w ks) in
@@ -128,7 +133,7 @@ Lemma conv_conds_ideal E cls dets : forall ks w, wf0 E w ->
 Proof.
   induction ks as [|k ks IH]; intros w [Ht Hc]; simpl.
   - split; [reflexivity|]. split; [split; assumption | repeat split].
-  - destruct (cache_parse_ideal E w k Hc) as [Hp [Hc1 [Ht1 [Ho1 [Hps1 [Hb1 [Hn1 Hv1]]]]]]].
+  - destruct (cache_parse_ideal E w k Hc) as [Hp [Hc1 [Ht1 [Ho1 [Hps1 [Hb1 [Hn1 [Hv1 Hpv1]]]]]]]].
     destruct (cache_parse E w k) as [w1 pt]. simpl in *. subst pt.
     unfold ideal_cond at 1. destruct (mem c_pipe k); simpl;
       [split; [reflexivity|]; split; [split; [rewrite Ht1; exact Ht | exact Hc1]|];
@@ -142,7 +147,7 @@ Proof.
         destruct (ideal_render (e_ne E cls) false ct) as [s|e|e]; simpl.
         -- specialize (IH (set_tplw w1 tp) Hwf2).
            destruct (conv_conds E cls dets (set_tplw w1 tp) ks) as [w3 r]. simpl in IH.
-           destruct IH as [Hr [Hwf3 [Ho3 [Hps3 [Hb3 [Hn3 Hv3]]]]]]. simpl. subst r.
+           destruct IH as [Hr [Hwf3 [Ho3 [Hps3 [Hb3 [Hn3 [Hv3 Hpv3]]]]]]]. simpl. subst r.
            split; [destruct (omap _ ks); reflexivity|]. split; [exact Hwf3|].
            unfold same_conv. simpl in *. repeat split; congruence.
         -- split; [reflexivity|]. split; [exact Hwf2|]. unfold same_conv; simpl; repeat split; assumption.
@@ -175,12 +180,12 @@ Qed.
 
 (* _get_values: nothing but the value cache changes; the cache stays sound; the caller gets what the
    source yields now *)
-Lemma fetch_vals_facts E w i it rd r : vcs E w -> valid_pair E i it ->
+Lemma fetch_vals_facts E w i it rd pv r : vcs E w -> valid_pair E i it ->
   let w0 := fst (fetch_vals E w i it rd r) in
   same_frame w w0 /\ w_ps w0 = w_ps w /\ vcs E w0 /\
-  item_step rd r it (snd (fetch_vals E w i it rd r)) = item_step rd r it (src_vals E it).
+  item_step rd pv r it (snd (fetch_vals E w i it rd r)) = item_step rd pv r it (src_vals E it).
 Proof.
-  intros Hv Hval. unfold fetch_vals, src_vals. destruct (i_tr it) as [k v|m| |d] eqn:Et;
+  intros Hv Hval. unfold fetch_vals, src_vals. destruct (i_tr it) as [k v|m| |d| ] eqn:Et;
     try (simpl; split; [apply same_frame_refl|]; split; [reflexivity|]; split; [exact Hv | reflexivity]).
   destruct (wants_values rd r it) eqn:Ew.
   - unfold get_values. destruct (w_vc w i) as [v|] eqn:Ec.
@@ -213,7 +218,7 @@ Proof.
   induction its as [|[i it] its IH]; intros w L r; simpl; [apply same_frame_refl|].
   destruct (fetch_vals_frame E w i it (rd_owner w (w_owner w i)) r) as [F _].
   destruct (fetch_vals E w i it (rd_owner w (w_owner w i)) r) as [w0 vals]. simpl in F.
-  destruct (is_res (item_step (rd_owner w (w_owner w i)) r it vals)) as [r'|e]; simpl.
+  destruct (is_res (item_step (rd_owner w (w_owner w i)) (rd_vars w (w_owner w i)) r it vals)) as [r'|e]; simpl.
   - eapply same_frame_trans; [exact F|]. eapply same_frame_trans; [|apply IH].
     eapply same_frame_trans; [apply wr_owner_frame | apply same_frame_set_ps].
   - eapply same_frame_trans; [exact F | apply wr_owner_frame].
@@ -223,9 +228,9 @@ Lemma apply_items_vcs E : forall its w L r, vcs E w ->
   (forall p, In p its -> valid_pair E (fst p) (snd p)) -> vcs E (fst (apply_items E w L r its)).
 Proof.
   induction its as [|[i it] its IH]; intros w L r Hv Hval; simpl; [exact Hv|].
-  destruct (fetch_vals_facts E w i it (rd_owner w (w_owner w i)) r Hv (Hval (i, it) (or_introl eq_refl))) as [_ [_ [Hv0 _]]].
+  destruct (fetch_vals_facts E w i it (rd_owner w (w_owner w i)) [] r Hv (Hval (i, it) (or_introl eq_refl))) as [_ [_ [Hv0 _]]].
   destruct (fetch_vals E w i it (rd_owner w (w_owner w i)) r) as [w0 vals]. simpl in Hv0.
-  destruct (is_res (item_step (rd_owner w (w_owner w i)) r it vals)) as [r'|e]; simpl.
+  destruct (is_res (item_step (rd_owner w (w_owner w i)) (rd_vars w (w_owner w i)) r it vals)) as [r'|e]; simpl.
   - apply IH; [|intros p Hp; apply Hval; right; exact Hp].
     eapply vcs_ext; [|exact Hv0]. simpl. apply wr_owner_vc.
   - eapply vcs_ext; [apply wr_owner_vc | exact Hv0].
@@ -233,17 +238,17 @@ Qed.
 
 (* when every item points to the pipeline being applied, the loop is the specification's loop on
    that pipeline's own fields, and a cached value list is what the source yields *)
-Lemma apply_items_ideal E : forall its w L r,
-  (forall p, In p its -> w_owner w (fst p) = Some L) -> vcs E w ->
+Lemma apply_items_ideal E V : forall its w L r,
+  (forall p, In p its -> w_owner w (fst p) = Some L) -> vcs E w -> w_pvars w L = V ->
   (forall p, In p its -> valid_pair E (fst p) (snd p)) ->
-  snd (apply_items E w L r its) = snd (ideal_items E (w_ps w L) r (map snd its)) /\
-  w_ps (fst (apply_items E w L r its)) L = fst (ideal_items E (w_ps w L) r (map snd its)).
+  snd (apply_items E w L r its) = snd (ideal_items E V (w_ps w L) r (map snd its)) /\
+  w_ps (fst (apply_items E w L r its)) L = fst (ideal_items E V (w_ps w L) r (map snd its)).
 Proof.
-  induction its as [|[i it] its IH]; intros w L r Hown Hv Hval; simpl; [split; reflexivity|].
-  pose proof (Hown (i, it) (or_introl eq_refl)) as Hi. simpl in Hi. rewrite Hi. simpl.
-  destruct (fetch_vals_facts E w i it (w_ps w L) r Hv (Hval (i, it) (or_introl eq_refl))) as [[_ [_ [Fo _]]] [Fps [Hv0 Hst]]].
-  destruct (fetch_vals E w i it (w_ps w L) r) as [w0 vals]. simpl in Fo, Fps, Hv0, Hst. rewrite Hst.
-  set (st := item_step (w_ps w L) r it (src_vals E it)).
+  induction its as [|[i it] its IH]; intros w L r Hown Hv Hpv Hval; simpl; [split; reflexivity|].
+  pose proof (Hown (i, it) (or_introl eq_refl)) as Hi. simpl in Hi. rewrite Hi. simpl. rewrite Hpv.
+  destruct (fetch_vals_facts E w i it (w_ps w L) V r Hv (Hval (i, it) (or_introl eq_refl))) as [[_ [_ [Fo [_ [_ Fpv]]]]] [Fps [Hv0 Hst]]].
+  destruct (fetch_vals E w i it (w_ps w L) r) as [w0 vals]. simpl in Fo, Fpv, Fps, Hv0, Hst. rewrite Hst.
+  set (st := item_step (w_ps w L) V r it (src_vals E it)).
   destruct (is_res st) as [r'|e] eqn:Er; simpl.
   - set (w1 := set_ps (set_ps w0 L (is_upd st (w_ps w0 L))) L
                       (note_applied it (is_match st) (w_ps (set_ps w0 L (is_upd st (w_ps w0 L))) L))).
@@ -252,7 +257,8 @@ Proof.
     assert (Hown1 : forall p, In p its -> w_owner w1 (fst p) = Some L).
     { intros p Hp. unfold w1. simpl. rewrite Fo. apply Hown. right. exact Hp. }
     assert (Hv1 : vcs E w1) by (eapply vcs_ext; [|exact Hv0]; reflexivity).
-    destruct (IH w1 L r' Hown1 Hv1 (fun p Hp => Hval p (or_intror Hp))) as [H1 H2].
+    assert (Hpv1 : w_pvars w1 L = V) by (unfold w1; simpl; rewrite Fpv; exact Hpv).
+    destruct (IH w1 L r' Hown1 Hv1 Hpv1 (fun p Hp => Hval p (or_intror Hp))) as [H1 H2].
     rewrite Hps in H1, H2. split; assumption.
   - split; [reflexivity|]. rewrite Nat.eqb_refl, Fps. reflexivity.
 Qed.
@@ -295,34 +301,42 @@ Qed.
 Definition owned (E : env) (w : world) (bk : backend) (L : nat) (f : N) : Prop :=
   forall p, In p (pipe_pairs E (b_cls bk) (b_user bk) f) -> w_owner w (fst p) = Some L.
 
+Lemma lasts_ext E w w' : w_bks w' = w_bks w -> w_next w' = w_next w -> w_pvars w' = w_pvars w -> lasts E w -> lasts E w'.
+Proof. intros Hb Hn Hp H b bk L f. rewrite Hb, Hn, Hp. apply H. Qed.
+
 Lemma conv_with_ideal E w L lfmt bk fmt r : wf E w -> owned E w bk L lfmt ->
+  w_pvars w L = init_vars E (b_cls bk) (b_user bk) (b_opts bk) lfmt ->
   let w' := fst (conv_with E w L lfmt bk fmt r) in
-  snd (conv_with E w L lfmt bk fmt r) = snd (ideal_rule E (b_cls bk) (b_user bk) lfmt fmt r)
-  /\ w_ps w' L = fst (ideal_rule E (b_cls bk) (b_user bk) lfmt fmt r)
-  /\ wf E w' /\ w_owner w' = w_owner w /\ w_bks w' = w_bks w /\ w_next w' = w_next w.
+  snd (conv_with E w L lfmt bk fmt r) = snd (ideal_rule E (b_cls bk) (b_user bk) (b_opts bk) lfmt fmt r)
+  /\ w_ps w' L = fst (ideal_rule E (b_cls bk) (b_user bk) (b_opts bk) lfmt fmt r)
+  /\ wf E w' /\ w_owner w' = w_owner w /\ w_bks w' = w_bks w /\ w_next w' = w_next w /\ w_pvars w' = w_pvars w.
 Proof.
-  intros [[Ht Hc] Hv] Hown. unfold conv_with, ideal_rule.
+  intros [[Ht Hc] [Hv Hl]] Hown Hpv. unfold conv_with, ideal_rule.
   set (w2 := set_ps w L ps0).
   assert (Hown2 : forall p, In p (pipe_pairs E (b_cls bk) (b_user bk) lfmt) -> w_owner w2 (fst p) = Some L)
     by (intros p Hp; apply Hown; exact Hp).
   assert (Hv2 : vcs E w2) by (eapply vcs_ext; [|exact Hv]; reflexivity).
-  destruct (apply_items_ideal E _ w2 L r Hown2 Hv2 (pipe_pairs_valid E _ _ _)) as [H1 H2].
-  pose proof (apply_items_frame E (pipe_pairs E (b_cls bk) (b_user bk) lfmt) w2 L r) as [F1 [F2 [F3 [F4 F5]]]].
+  assert (Hpv2 : w_pvars w2 L = init_vars E (b_cls bk) (b_user bk) (b_opts bk) lfmt) by exact Hpv.
+  destruct (apply_items_ideal E _ _ w2 L r Hown2 Hv2 Hpv2 (pipe_pairs_valid E _ _ _)) as [H1 H2].
+  pose proof (apply_items_frame E (pipe_pairs E (b_cls bk) (b_user bk) lfmt) w2 L r) as [F1 [F2 [F3 [F4 [F5 F6]]]]].
   pose proof (apply_items_vcs E (pipe_pairs E (b_cls bk) (b_user bk) lfmt) w2 L r Hv2 (pipe_pairs_valid E _ _ _)) as Hv3.
   rewrite pipe_pairs_defs in H1, H2.
   assert (Hps2 : w_ps w2 L = ps0) by (unfold w2; simpl; rewrite Nat.eqb_refl; reflexivity).
   rewrite Hps2 in H1, H2.
   destruct (apply_items E w2 L r (pipe_pairs E (b_cls bk) (b_user bk) lfmt)) as [w3 res].
-  destruct (ideal_items E ps0 r (pipe_defs E (b_cls bk) (b_user bk) lfmt)) as [ps res']. simpl in *. subst res' ps.
+  destruct (ideal_items E (init_vars E (b_cls bk) (b_user bk) (b_opts bk) lfmt) ps0 r (pipe_defs E (b_cls bk) (b_user bk) lfmt)) as [ps res'].
+  simpl in *. subst res' ps.
+  assert (Hl3 : lasts E w3) by (apply (lasts_ext E w w3 F4 F5 F6 Hl)).
   destruct res as [r'|e]; simpl.
   - assert (Hwf3 : wf0 E w3) by (split; [rewrite F1; exact Ht | rewrite F2; exact Hc]).
-    destruct (conv_conds_ideal E (b_cls bk) (r_dets r') (r_conds r') w3 Hwf3) as [Hq [Hwf4 [Ho4 [Hps4 [Hb4 [Hn4 Hv4]]]]]].
+    destruct (conv_conds_ideal E (b_cls bk) (r_dets r') (r_conds r') w3 Hwf3) as [Hq [Hwf4 [Ho4 [Hps4 [Hb4 [Hn4 [Hv4 Hpv4]]]]]]].
     destruct (conv_conds E (b_cls bk) (r_dets r') w3 (r_conds r')) as [w4 qs]. simpl in *. subst qs.
     split; [reflexivity|]. split; [rewrite Hps4; reflexivity|].
-    split; [split; [exact Hwf4 | eapply vcs_ext; [exact Hv4 | exact Hv3]]|].
+    split; [split; [exact Hwf4 | split; [eapply vcs_ext; [exact Hv4 | exact Hv3] | apply (lasts_ext E w3 w4 Hb4 Hn4 Hpv4 Hl3)]]|].
     repeat split; congruence.
   - split; [reflexivity|]. split; [reflexivity|].
-    split; [split; [split; [rewrite F1; exact Ht | rewrite F2; exact Hc] | exact Hv3]|]. repeat split; assumption.
+    split; [split; [split; [rewrite F1; exact Ht | rewrite F2; exact Hc] | split; [exact Hv3 | exact Hl3]]|].
+    repeat split; assumption.
 Qed.
 
 (* without any assumption on the owner links the invariant is still kept *)
@@ -330,17 +344,19 @@ Lemma conv_with_wf E w L lfmt bk fmt r : wf E w ->
   let w' := fst (conv_with E w L lfmt bk fmt r) in
   wf E w' /\ w_owner w' = w_owner w /\ w_bks w' = w_bks w /\ w_next w' = w_next w.
 Proof.
-  intros [[Ht Hc] Hv]. unfold conv_with. set (w2 := set_ps w L ps0).
+  intros [[Ht Hc] [Hv Hl]]. unfold conv_with. set (w2 := set_ps w L ps0).
   assert (Hv2 : vcs E w2) by (eapply vcs_ext; [|exact Hv]; reflexivity).
-  pose proof (apply_items_frame E (pipe_pairs E (b_cls bk) (b_user bk) lfmt) w2 L r) as [F1 [F2 [F3 [F4 F5]]]].
+  pose proof (apply_items_frame E (pipe_pairs E (b_cls bk) (b_user bk) lfmt) w2 L r) as [F1 [F2 [F3 [F4 [F5 F6]]]]].
   pose proof (apply_items_vcs E (pipe_pairs E (b_cls bk) (b_user bk) lfmt) w2 L r Hv2 (pipe_pairs_valid E _ _ _)) as Hv3.
   destruct (apply_items E w2 L r (pipe_pairs E (b_cls bk) (b_user bk) lfmt)) as [w3 res]. simpl in *.
   assert (Hwf3 : wf0 E w3) by (split; [rewrite F1; exact Ht | rewrite F2; exact Hc]).
+  assert (Hl3 : lasts E w3) by (apply (lasts_ext E w w3 F4 F5 F6 Hl)).
   destruct res as [r'|e]; simpl.
-  - destruct (conv_conds_ideal E (b_cls bk) (r_dets r') (r_conds r') w3 Hwf3) as [_ [Hwf4 [Ho4 [Hps4 [Hb4 [Hn4 Hv4]]]]]].
+  - destruct (conv_conds_ideal E (b_cls bk) (r_dets r') (r_conds r') w3 Hwf3) as [_ [Hwf4 [Ho4 [Hps4 [Hb4 [Hn4 [Hv4 Hpv4]]]]]]].
     destruct (conv_conds E (b_cls bk) (r_dets r') w3 (r_conds r')) as [w4 qs]. simpl in *.
-    split; [split; [exact Hwf4 | eapply vcs_ext; [exact Hv4 | exact Hv3]]|]. repeat split; congruence.
-  - split; [split; [exact Hwf3 | exact Hv3]|]. repeat split; assumption.
+    split; [split; [exact Hwf4 | split; [eapply vcs_ext; [exact Hv4 | exact Hv3] | apply (lasts_ext E w3 w4 Hb4 Hn4 Hpv4 Hl3)]]|].
+    repeat split; congruence.
+  - split; [split; [exact Hwf3 | split; [exact Hv3 | exact Hl3]]|]. repeat split; assumption.
 Qed.
 
 (* ---------- init ---------- *)
@@ -357,13 +373,35 @@ Proof.
   { apply existsb_exists. exists (fst p). split; [apply in_map; exact Hp | apply iid_eqb_refl]. }
   rewrite H. reflexivity.
 Qed.
-Lemma init_wf E w b bk fmt : wf E w -> wf E (init_pipeline E w b bk fmt).
-Proof. intros [[H1 H2] H3]. split; [split; assumption | exact H3]. Qed.
+Lemma init_pvars E w b bk fmt :
+  w_pvars (init_pipeline E w b bk fmt) (w_next w) = init_vars E (b_cls bk) (b_user bk) (b_opts bk) fmt.
+Proof. unfold init_pipeline. simpl. rewrite Nat.eqb_refl. reflexivity. Qed.
 
 Lemma nth_error_set_nth {A} (l : list A) : forall n x y, nth_error l n = Some y -> nth_error (set_nth n x l) n = Some x.
 Proof.
   induction l as [|a l IH]; intros [|n] x y H; simpl in *; try discriminate; [reflexivity|].
   eapply IH. exact H.
+Qed.
+Lemma nth_error_set_nth_same {A} (l : list A) : forall n x y, nth_error (set_nth n x l) n = Some y -> y = x.
+Proof.
+  induction l as [|a l IH]; intros [|n] x y H; simpl in *; try discriminate; [congruence|].
+  eapply IH. exact H.
+Qed.
+Lemma nth_error_set_nth_neq {A} (l : list A) : forall n m x, n <> m -> nth_error (set_nth n x l) m = nth_error l m.
+Proof.
+  induction l as [|a l IH]; intros [|n] [|m] x H; simpl; try reflexivity; try congruence.
+  apply IH. congruence.
+Qed.
+
+Lemma init_wf E w b bk fmt : wf E w -> wf E (init_pipeline E w b bk fmt).
+Proof.
+  intros [[H1 H2] [H3 H4]]. split; [split; assumption|]. split; [exact H3|].
+  intros b' bk' L f Hb Hl. unfold init_pipeline in Hb |- *. simpl in Hb |- *.
+  destruct (Nat.eq_dec b b') as [->|Hne].
+  - apply nth_error_set_nth_same in Hb. subst bk'. simpl in Hl. inversion Hl; subst L f. simpl.
+    split; [lia|]. rewrite Nat.eqb_refl. reflexivity.
+  - rewrite nth_error_set_nth_neq in Hb by exact Hne. destruct (H4 b' bk' L f Hb Hl) as [A B].
+    split; [lia|]. destruct (Nat.eqb L (w_next w)) eqn:Ee; [apply Nat.eqb_eq in Ee; lia | exact B].
 Qed.
 
 (* ---------- the frame property ---------- *)
@@ -383,47 +421,53 @@ Proof. intros H. exact H. Qed.
 
 Lemma frame_rule E w b bk fmt r :
   wf E w -> nth_error (w_bks w) b = Some bk -> owns_ok E w bk = true -> fmt_ok bk fmt = true ->
-  out_obs (snd (step E w (OConvRule b r fmt))) = ideal_obs_rule E (b_cls bk) (b_user bk) (b_collect bk) fmt r.
+  out_obs (snd (step E w (OConvRule b r fmt))) =
+  ideal_obs_rule E (b_cls bk) (b_user bk) (b_collect bk) (b_opts bk) fmt r.
 Proof.
   intros Hwf Hb Hown Hfmt. simpl. rewrite Hb. unfold conv_rule_raw, ideal_obs_rule.
   destruct (b_last bk) as [[L f]|] eqn:El.
   - unfold fmt_ok in Hfmt. rewrite El in Hfmt. apply N.eqb_eq in Hfmt. subst f.
     assert (Ho : owned E (load w r) bk L fmt) by (apply (owns_ok_owned E w bk L fmt El Hown)).
-    destruct (conv_with_ideal E (load w r) L fmt bk fmt r (load_wf E w r Hwf) Ho) as [Hq [Hps [_ [_ [Hbk _]]]]].
+    assert (Hpv : w_pvars (load w r) L = init_vars E (b_cls bk) (b_user bk) (b_opts bk) fmt).
+    { destruct Hwf as [_ [_ Hl]]. apply (Hl b bk L fmt Hb El). }
+    destruct (conv_with_ideal E (load w r) L fmt bk fmt r (load_wf E w r Hwf) Ho Hpv) as [Hq [Hps [_ [_ [Hbk _]]]]].
     destruct (conv_with E (load w r) L fmt bk fmt r) as [w1 q]. simpl in *.
     assert (Hsnap : snap w1 b = Some (w_ps w1 L)).
     { apply (snap_set w1 b bk L fmt); [rewrite Hbk; exact Hb | exact El]. }
-    destruct (ideal_rule E (b_cls bk) (b_user bk) fmt fmt r) as [ps q']. simpl in *. subst q' ps.
+    destruct (ideal_rule E (b_cls bk) (b_user bk) (b_opts bk) fmt fmt r) as [ps q']. simpl in *. subst q' ps.
     rewrite Hsnap. destruct q as [l|e|e]; [reflexivity | destruct (b_collect bk); reflexivity | reflexivity].
   - set (w0 := init_pipeline E (load w r) b bk fmt).
     assert (Hwf0 : wf E w0) by (apply init_wf; exact Hwf).
     pose proof (init_owned E (load w r) b bk fmt) as Ho.
-    destruct (conv_with_ideal E w0 (w_next (load w r)) fmt bk fmt r Hwf0 Ho) as [Hq [Hps [_ [_ [Hbk _]]]]].
+    pose proof (init_pvars E (load w r) b bk fmt) as Hpv.
+    destruct (conv_with_ideal E w0 (w_next (load w r)) fmt bk fmt r Hwf0 Ho Hpv) as [Hq [Hps [_ [_ [Hbk _]]]]].
     fold w0. destruct (conv_with E w0 (w_next (load w r)) fmt bk fmt r) as [w1 q]. simpl in Hq, Hps, Hbk.
     assert (Hsnap : snap w1 b = Some (w_ps w1 (w_next (load w r)))).
     { unfold snap. rewrite Hbk. unfold w0, init_pipeline. simpl.
       erewrite nth_error_set_nth; [reflexivity | exact Hb]. }
-    destruct (ideal_rule E (b_cls bk) (b_user bk) fmt fmt r) as [ps q']. simpl in *. subst q' ps.
+    destruct (ideal_rule E (b_cls bk) (b_user bk) (b_opts bk) fmt fmt r) as [ps q']. simpl in *. subst q' ps.
     rewrite Hsnap. destruct q as [l|e|e]; [reflexivity | destruct (b_collect bk); reflexivity | reflexivity].
 Qed.
 
 (* convert(): the pipeline object is rebuilt first, so nothing has to be assumed about owner links *)
-Lemma conv_rules_ideal E b fmt collect L cls user : forall rs w acc errs,
+Lemma conv_rules_ideal E b fmt collect L cls user opts : forall rs w acc errs,
   wf E w ->
   (exists bk, nth_error (w_bks w) b = Some bk /\ b_last bk = Some (L, fmt) /\ b_cls bk = cls /\ b_user bk = user
-              /\ owned E w bk L fmt) ->
+              /\ b_opts bk = opts /\ owned E w bk L fmt) ->
   let '(w', q, errs') := conv_rules E w b fmt collect rs acc errs in
-  {| o_res := q; o_errs := errs'; o_snap := snap w' b |} = ideal_rules E cls user collect fmt rs acc errs (w_ps w L).
+  {| o_res := q; o_errs := errs'; o_snap := snap w' b |} = ideal_rules E cls user collect opts fmt rs acc errs (w_ps w L).
 Proof.
-  induction rs as [|r rs IH]; intros w acc errs Hwf [bk [Hb [Hl [Hc [Hu Ho]]]]]; simpl.
+  induction rs as [|r rs IH]; intros w acc errs Hwf [bk [Hb [Hl [Hc [Hu [Hop Ho]]]]]]; simpl.
   - rewrite (snap_set w b bk L fmt Hb Hl). reflexivity.
   - rewrite Hb. unfold conv_rule_raw. rewrite Hl.
-    destruct (conv_with_ideal E w L fmt bk fmt r Hwf Ho) as [Hq [Hps [Hwf1 [Hown1 [Hbk1 _]]]]].
+    assert (Hpv : w_pvars w L = init_vars E (b_cls bk) (b_user bk) (b_opts bk) fmt).
+    { destruct Hwf as [_ [_ Hls]]. apply (Hls b bk L fmt Hb Hl). }
+    destruct (conv_with_ideal E w L fmt bk fmt r Hwf Ho Hpv) as [Hq [Hps [Hwf1 [Hown1 [Hbk1 _]]]]].
     destruct (conv_with E w L fmt bk fmt r) as [w1 q]. simpl in Hq, Hps, Hwf1, Hown1, Hbk1.
-    rewrite Hc, Hu in Hq, Hps.
-    destruct (ideal_rule E cls user fmt fmt r) as [ps q']. simpl in Hq, Hps. subst q' ps.
+    rewrite Hc, Hu, Hop in Hq, Hps.
+    destruct (ideal_rule E cls user opts fmt fmt r) as [ps q']. simpl in Hq, Hps. subst q' ps.
     assert (Hex : exists bk0, nth_error (w_bks w1) b = Some bk0 /\ b_last bk0 = Some (L, fmt) /\ b_cls bk0 = cls
-                              /\ b_user bk0 = user /\ owned E w1 bk0 L fmt).
+                              /\ b_user bk0 = user /\ b_opts bk0 = opts /\ owned E w1 bk0 L fmt).
     { exists bk. rewrite Hbk1. repeat split; try assumption. intros p Hp. rewrite Hown1. apply Ho. exact Hp. }
     assert (Hsnap : snap w1 b = Some (w_ps w1 L)) by (apply (snap_set w1 b bk L fmt); [rewrite Hbk1; exact Hb | exact Hl]).
     destruct q as [l|e|e].
@@ -442,19 +486,21 @@ Proof. induction rs as [|r rs IH]; intros w H; simpl; [exact H | apply IH; apply
 
 Lemma frame_coll E w b bk fmt rs :
   wf E w -> nth_error (w_bks w) b = Some bk ->
-  out_obs (snd (step E w (OConvColl b rs fmt))) = ideal_obs_coll E (b_cls bk) (b_user bk) (b_collect bk) fmt rs.
+  out_obs (snd (step E w (OConvColl b rs fmt))) =
+  ideal_obs_coll E (b_cls bk) (b_user bk) (b_collect bk) (b_opts bk) fmt rs.
 Proof.
   intros Hwf Hb. simpl. rewrite Hb.
   set (wl := fold_left load rs w). destruct (fold_load_frame rs w) as [F1 [F2 F3]]. fold wl in F1, F2, F3.
   set (w0 := init_pipeline E wl b bk fmt).
   assert (Hwf0 : wf E w0) by (apply init_wf; apply fold_load_wf; exact Hwf).
-  set (bk0 := {| b_cls := b_cls bk; b_user := b_user bk; b_collect := b_collect bk; b_last := Some (w_next wl, fmt) |}).
+  set (bk0 := {| b_cls := b_cls bk; b_user := b_user bk; b_collect := b_collect bk; b_opts := b_opts bk;
+                 b_last := Some (w_next wl, fmt) |}).
   assert (Hex : exists bk1, nth_error (w_bks w0) b = Some bk1 /\ b_last bk1 = Some (w_next wl, fmt) /\ b_cls bk1 = b_cls bk
-                            /\ b_user bk1 = b_user bk /\ owned E w0 bk1 (w_next wl) fmt).
+                            /\ b_user bk1 = b_user bk /\ b_opts bk1 = b_opts bk /\ owned E w0 bk1 (w_next wl) fmt).
   { exists bk0. split; [|repeat split].
     - unfold w0, init_pipeline. simpl. eapply nth_error_set_nth. rewrite F3. exact Hb.
     - apply (init_owned E wl b bk fmt). }
-  pose proof (conv_rules_ideal E b fmt (b_collect bk) (w_next wl) (b_cls bk) (b_user bk) rs w0 [] [] Hwf0 Hex) as H.
+  pose proof (conv_rules_ideal E b fmt (b_collect bk) (w_next wl) (b_cls bk) (b_user bk) (b_opts bk) rs w0 [] [] Hwf0 Hex) as H.
   destruct (conv_rules E w0 b fmt (b_collect bk) rs [] []) as [[w1 q] errs]. simpl.
   rewrite H. unfold ideal_obs_coll.
   assert (Hps : w_ps w0 (w_next wl) = ps0) by (unfold w0, init_pipeline; simpl; rewrite Nat.eqb_refl; reflexivity).
@@ -477,9 +523,15 @@ Qed.
 
 Lemma step_wf E w o : wf E w -> wf E (fst (step E w o)).
 Proof.
-  intros Hwf. destruct o as [r|cls user collect|b fmt|b rs fmt|b r fmt]; simpl.
+  intros Hwf. destruct o as [r|cls user collect opts|b fmt|b rs fmt|b r fmt]; simpl.
   - exact Hwf.
-  - exact Hwf.
+  - destruct Hwf as [H0 [Hv Hl]]. split; [exact H0|]. split; [exact Hv|].
+    intros b bk L f Hb Hla. simpl in Hb.
+    destruct (Nat.lt_ge_cases b (List.length (w_bks w))) as [Hlt|Hge].
+    + rewrite nth_error_app1 in Hb by exact Hlt. apply (Hl b bk L f Hb Hla).
+    + rewrite nth_error_app2 in Hb by exact Hge. destruct (b - List.length (w_bks w))%nat as [|k]; simpl in Hb.
+      * inversion Hb; subst bk. discriminate.
+      * destruct k; discriminate.
   - destruct (nth_error (w_bks w) b); simpl; [apply init_wf|]; exact Hwf.
   - destruct (nth_error (w_bks w) b) as [bk|]; simpl; [|exact Hwf].
     assert (H0 : wf E (init_pipeline E (fold_left load rs w) b bk fmt)) by (apply init_wf; apply fold_load_wf; exact Hwf).
@@ -496,7 +548,8 @@ Qed.
 
 Lemma init_world_wf E : wf E init.
 Proof.
-  split; [split; [intros c; reflexivity | intros k t H; discriminate] | intros i it d v H; discriminate].
+  split; [split; [intros c; reflexivity | intros k t H; discriminate]|].
+  split; [intros i it d v H; discriminate | intros b bk L f H; destruct b; discriminate].
 Qed.
 
 Lemma run_wf E : forall ops w, wf E w -> wf E (fst (run E w ops)).
@@ -510,18 +563,20 @@ Qed.
 Theorem frame_rule_reachable E ops b bk fmt r :
   let w := fst (run E init ops) in
   nth_error (w_bks w) b = Some bk -> owns_ok E w bk = true -> fmt_ok bk fmt = true ->
-  out_obs (snd (step E w (OConvRule b r fmt))) = ideal_obs_rule E (b_cls bk) (b_user bk) (b_collect bk) fmt r.
+  out_obs (snd (step E w (OConvRule b r fmt))) =
+  ideal_obs_rule E (b_cls bk) (b_user bk) (b_collect bk) (b_opts bk) fmt r.
 Proof. intros w. apply frame_rule. apply run_wf. apply init_world_wf. Qed.
 
 Theorem frame_coll_reachable E ops b bk fmt rs :
   let w := fst (run E init ops) in
   nth_error (w_bks w) b = Some bk ->
-  out_obs (snd (step E w (OConvColl b rs fmt))) = ideal_obs_coll E (b_cls bk) (b_user bk) (b_collect bk) fmt rs.
+  out_obs (snd (step E w (OConvColl b rs fmt))) =
+  ideal_obs_coll E (b_cls bk) (b_user bk) (b_collect bk) (b_opts bk) fmt rs.
 Proof. intros w. apply frame_coll. apply run_wf. apply init_world_wf. Qed.
 
 (* the same probe in a world where nothing has happened: one new backend of the same configuration *)
 Definition fresh_world (E : env) (bk : backend) : world :=
-  fst (step E init (ONew (b_cls bk) (b_user bk) (b_collect bk))).
+  fst (step E init (ONew (b_cls bk) (b_user bk) (b_collect bk) (b_opts bk))).
 
 Theorem fresh_rule E ops b bk fmt r :
   let w := fst (run E init ops) in
@@ -531,7 +586,7 @@ Proof.
   intros w Hb Ho Hf. subst w. rewrite (frame_rule_reachable E ops b bk fmt r Hb Ho Hf).
   symmetry.
   apply (frame_rule E (fresh_world E bk) 0
-           {| b_cls := b_cls bk; b_user := b_user bk; b_collect := b_collect bk; b_last := None |} fmt r).
+           {| b_cls := b_cls bk; b_user := b_user bk; b_collect := b_collect bk; b_opts := b_opts bk; b_last := None |} fmt r).
   - apply (step_wf E init). apply init_world_wf.
   - reflexivity.
   - reflexivity.
@@ -546,16 +601,20 @@ Proof.
   intros w Hb. subst w. rewrite (frame_coll_reachable E ops b bk fmt rs Hb).
   symmetry.
   apply (frame_coll E (fresh_world E bk) 0
-           {| b_cls := b_cls bk; b_user := b_user bk; b_collect := b_collect bk; b_last := None |} fmt rs).
+           {| b_cls := b_cls bk; b_user := b_user bk; b_collect := b_collect bk; b_opts := b_opts bk; b_last := None |} fmt rs).
   - apply (step_wf E init). apply init_world_wf.
   - reflexivity.
 Qed.
 
-(* class templates, parse cache and external-source value caches after any history *)
+(* class templates, parse cache, external-source value caches and pipeline variables after any history *)
 Theorem invariant_reachable E ops :
   let w := fst (run E init ops) in
   (forall c, w_tpl w c = tpl0) /\ (forall k t, lookup k (w_cache w) = Some t -> e_parse E k = Some t) /\
-  (forall i it d v, w_vc w i = Some v -> valid_pair E i it -> i_tr it = TFile d -> e_src E d = Ok v).
+  (forall i it d v, w_vc w i = Some v -> valid_pair E i it -> i_tr it = TFile d -> e_src E d = Ok v) /\
+  (forall b bk L f, nth_error (w_bks w) b = Some bk -> b_last bk = Some (L, f) ->
+     w_pvars w L = init_vars E (b_cls bk) (b_user bk) (b_opts bk) f).
 Proof.
-  intros w. destruct (run_wf E ops init (init_world_wf E)) as [[H1 H2] H3]. split; [exact H1|]. split; [exact H2 | exact H3].
+  intros w. destruct (run_wf E ops init (init_world_wf E)) as [[H1 H2] [H3 H4]].
+  split; [exact H1|]. split; [exact H2|]. split; [exact H3|].
+  intros b bk L f Hb Hl. apply (H4 b bk L f Hb Hl).
 Qed.
